@@ -1,7 +1,7 @@
 #!/bin/bash
-# tools/twin_ingest.sh <Cnn> : copy the refactoring patches of /tmp/twin4/<Cnn>/_twin into /verif/twins/<Cnn>/ and score them
+# tools/twin_ingest.sh <Cnn> : copy the refactoring patches of /tmp/twin5/<Cnn>/_twin into /verif/twins/<Cnn>/ and score them
 set -e
-p=$1; src=/tmp/twin4/$p/_twin; d=/verif/twins/${p}d
+p=$1; src=/tmp/twin5/$p/_twin; d=/verif/twins/${p}e
 mkdir -p $d
 cp $src/patch*.diff $src/NOTES.md $d/ 2>/dev/null || true
 mkdir -p /tmp/twinscore_$p/$p && cp $d/patch*.diff /tmp/twinscore_$p/$p/
